@@ -198,4 +198,4 @@ Example pseudo_shape_ex :
   pos_valid startpos = true /\ In (mv 12 28) (pseudo startpos) /\
   piece_at_is startpos 12 King = false /\ is_ep startpos (mv 12 28) = false /\
   N.land (between 12 28) (occw startpos) = 0 /\ at_ (apply startpos (mv 12 28)) 28 = Some (Pawn,White).
-Proof. vm_compute. repeat split; try reflexivity. tauto. Qed.
+Proof. rewrite occw_eq. vm_compute. repeat split; try reflexivity. tauto. Qed.
